@@ -46,12 +46,17 @@ def _task(args):
         eng.notes = {}
         eng.assumes = {}
         eng.worklist = list(prefixes)
+        eng.xcheck_every = int(os.environ.get('VERIF_XCHECK_EVERY', '40'))
+        eng.xchecks = 0
+        eng.real_models = []
+        eng.real_models_wanted = 1
         deadline = time.time() + max_s
         eng.explore(lambda e: mod.harness(e, fam, params), max_paths=max_paths, deadline=deadline)
         left = [eng.export_prefix(p) for p in eng.worklist]
         eng.worklist = []
         return {'stats': eng.stats.as_dict(), 'violations': eng.violations, 'witnesses': eng.witnesses,
-                'samples': eng.samples, 'notes': eng.notes, 'assumes': eng.assumes, 'left': left}
+                'samples': eng.samples, 'notes': eng.notes, 'assumes': eng.assumes, 'left': left,
+                'xchecks': eng.xchecks, 'real_models': eng.real_models}
     except BaseException as e:
         return {'error': '%s: %s\n%s' % (type(e).__name__, e, traceback.format_exc())}
 
@@ -64,8 +69,14 @@ class Accum:
         self.samples = []
         self.notes = {}
         self.assumes = {}
+        self.xchecks = 0
+        self.real_models = []
 
     def add(self, r):
+        self.xchecks += r.get('xchecks', 0)
+        for m in r.get('real_models', []):
+            if len(self.real_models) < 64:
+                self.real_models.append(m)
         self.stats.add(r['stats'])
         for k, v in r['violations'].items():
             cur = self.violations.get(k)
@@ -91,6 +102,8 @@ def explore_family(modname, fam, params, seed, budget_s, procs, max_paths=None, 
     eng = _new_engine(seed)
     eng.bfs = True
     eng.worklist = [[]]
+    eng.xcheck_every = int(os.environ.get('VERIF_XCHECK_EVERY', '40'))
+    eng.real_models_wanted = 2
     prof = None
     if funcs is not None:
         def prof(frame, event, arg):
@@ -117,7 +130,8 @@ def explore_family(modname, fam, params, seed, budget_s, procs, max_paths=None, 
         import threading
         threading.setprofile(None)
     acc.add({'stats': eng.stats.as_dict(), 'violations': eng.violations, 'witnesses': eng.witnesses,
-             'samples': eng.samples, 'notes': eng.notes, 'assumes': eng.assumes})
+             'samples': eng.samples, 'notes': eng.notes, 'assumes': eng.assumes, 'xchecks': eng.xchecks,
+             'real_models': eng.real_models})
     queue = [eng.export_prefix(p) for p in eng.worklist]
     eng.worklist = []
     if not queue:
@@ -173,8 +187,10 @@ def explore_family(modname, fam, params, seed, budget_s, procs, max_paths=None, 
 
 
 # ---------------------------------------------------------------------- replay
-def write_replay(prop, modname, fam, params, rec):
+def write_replay(prop, modname, fam, params, rec, sub=None):
     d = os.path.join(VERIF, 'replays', prop)
+    if sub:
+        d = os.path.join(d, sub)
     os.makedirs(d, exist_ok=True)
     body = {'property': prop, 'module': modname, 'family': fam, 'params': params, 'check': rec['check'],
             'sig': rec['sig'], 'info': rec.get('info'), 'path_info': rec.get('path_info'),
@@ -242,6 +258,8 @@ def run_check(prop, modname, tier, seed):
     fam_report = []
     funcs = set()
     all_viol = []
+    real_validations = 0
+    validation_failures = []
     weights = [f.get('weight', 1.0) for f in families]
     wsum = sum(weights)
     spent = 0.0
@@ -262,7 +280,21 @@ def run_check(prop, modname, tier, seed):
                            'completed': completed, 'wall_s': round(dt, 2),
                            'violation_signatures': len(acc.violations)})
         total.add({'stats': acc.stats.as_dict(), 'violations': {}, 'witnesses': acc.witnesses,
-                   'samples': acc.samples, 'notes': acc.notes, 'assumes': acc.assumes})
+                   'samples': acc.samples, 'notes': acc.notes, 'assumes': acc.assumes, 'xchecks': acc.xchecks})
+        # ---- model validation: a few completed paths of this family are re-run on the real OS; every
+        # obligation that held symbolically must hold there too (otherwise the environment model is wrong)
+        nval = int(os.environ.get('VERIF_REAL_VALIDATIONS', '3' if tier == 'quick' else '6'))
+        if not acc.violations:
+            for rm in acc.real_models[:nval]:
+                rec = {'check': '(model validation)', 'sig': ['(model validation)'], 'info': None,
+                       'path_info': rm.get('path_info'), 'model': rm['model']}
+                vpath = write_replay(prop, modname, f['name'], f.get('params', {}), rec, sub='validate')
+                status, failures = run_replay(vpath)
+                real_validations += 1
+                if status == 'error' or failures:
+                    validation_failures.append((f['name'], vpath, status, failures))
+                else:
+                    os.remove(vpath)
         for k, v in acc.violations.items():
             all_viol.append((f, k, v))
     # ---- replay counterexamples on the real OS
@@ -303,7 +335,8 @@ def run_check(prop, modname, tier, seed):
     cov = {
         'states': st.paths,
         'transitions': st.decisions,
-        'traces_validated_against_impl': replays,
+        'traces_validated_against_impl': replays + real_validations + total.xchecks,
+        'concolic_cross_checks_in_model': total.xchecks, 'paths_revalidated_on_real_os': real_validations,
         'samples': total.samples[:5] or [{'note': 'no sample recorded'}],
         'exhaustive': exhaustive,
         'paths_completed': st.paths_completed, 'paths_aborted_by_assumption': st.paths_aborted,
@@ -346,6 +379,12 @@ def run_check(prop, modname, tier, seed):
             print('INCONCLUSIVE: counterexample %s did not reproduce on the real OS (replay=%s): %s'
                   % (list(k), p, json.dumps(fl, default=str)[:600]))
         code = 3
+    if validation_failures:
+        for fam_, vp_, st_, fl_ in validation_failures[:5]:
+            print('INCONCLUSIVE: model validation failed in family %s: a path that holds symbolically does not hold on the '
+                  'real OS (replay=%s): %s %s' % (fam_, vp_, st_, json.dumps(fl_, default=str)[:600]))
+        if code == 0:
+            code = 3
     if code == 0 and missing:
         print('INCONCLUSIVE: reachability witnesses never hit: %s' % missing)
         code = 3
